@@ -432,6 +432,91 @@ def fold_entries():
     return E
 
 
+FLOW_HEADER = """#[derive(Copy, Drop)]
+struct In2 { m: felt252, n: felt252 }
+#[derive(Copy, Drop)]
+struct Out2 { a: In2, k: felt252 }
+#[derive(Copy, Drop)]
+struct Out3 { o: Out2, z: u8 }
+#[derive(Copy, Drop)]
+struct Pt { x: felt252, y: felt252 }
+"""
+
+
+def flow_entries():
+    """Value-flow patterns across control-flow joins: partially updated nested structs re-assigned
+    in one branch, values that are a box content on one path only and are boxed again, member
+    updates inside match arms and loops."""
+    E = []
+
+    def ite(c, a, b):
+        # c is a bool input value ('enum', None, sel, ...)
+        sel = c[2] if c[1] is None else c[1]
+        return z3.If(sel == 1, a, b) if not isinstance(sel, int) else (a if sel == 1 else b)
+
+    E.append(BEntry("flow_nested_reassign", [("c", "bool"), ("s", "felt252")],
+                    "(felt252, felt252, felt252)",
+                    "let mut x = Out2 { a: In2 { m: s, n: s + 1 }, k: s + 2 }; x.a.n = 7; "
+                    "if c { x = Out2 { a: In2 { m: 100, n: 200 }, k: 300 }; } (x.a.m, x.a.n, x.k)",
+                    lambda c, s: [(True, ok(vtuple(vint(ite(c, 100, i_(s))), vint(ite(c, 200, 7)),
+                                                   vint(ite(c, 300, (i_(s) + 2) % P)))))],
+                    tags=("flow",)))
+    E.append(BEntry("flow_nested_reassign_else", [("c", "bool"), ("s", "felt252")],
+                    "(felt252, felt252)",
+                    "let mut x = Out2 { a: In2 { m: s, n: 5 }, k: 6 }; x.a.m = s + 9; "
+                    "if c { x.k = 1; } else { x = Out2 { a: In2 { m: 40, n: 50 }, k: 60 }; } "
+                    "(x.a.m + x.a.n, x.k)",
+                    lambda c, s: [(True, ok(vtuple(vint(ite(c, (i_(s) + 9 + 5) % P, 90)),
+                                                   vint(ite(c, 1, 60)))))], tags=("flow",)))
+    E.append(BEntry("flow_nested3_reassign", [("c", "bool"), ("s", "felt252")],
+                    "(felt252, felt252, u8)",
+                    "let mut x = Out3 { o: Out2 { a: In2 { m: s, n: 2 }, k: 3 }, z: 4 }; "
+                    "x.o.a.n = s; if c { x = Out3 { o: Out2 { a: In2 { m: 11, n: 12 }, k: 13 }, z: 14 }; }"
+                    " (x.o.a.m, x.o.a.n + x.o.k, x.z)",
+                    lambda c, s: [(True, ok(vtuple(vint(ite(c, 11, i_(s))),
+                                                   vint(ite(c, 25, (i_(s) + 3) % P)),
+                                                   vint(ite(c, 14, 4)))))], tags=("flow",)))
+    E.append(BEntry("flow_reassign_inner_only", [("c", "bool"), ("s", "felt252")],
+                    "(felt252, felt252)",
+                    "let mut x = Out2 { a: In2 { m: s, n: 2 }, k: 3 }; x.a.n = 8; "
+                    "if c { x.a = In2 { m: 70, n: 80 }; } (x.a.m, x.a.n)",
+                    lambda c, s: [(True, ok(vtuple(vint(ite(c, 70, i_(s))), vint(ite(c, 80, 8)))))],
+                    tags=("flow",)))
+    E.append(BEntry("flow_box_merge", [("c", "bool"), ("x", "felt252"), ("alt", "felt252")],
+                    "felt252",
+                    "let b = BoxTrait::new(x); let v = if c { b.unbox() } else { alt }; "
+                    "BoxTrait::new(v).unbox()",
+                    lambda c, x, alt: [(True, ok(vint(ite(c, i_(x), i_(alt)))))], tags=("flow",)))
+    E.append(BEntry("flow_box_member_merge", [("c", "bool"), ("x", "felt252"), ("alt", "felt252")],
+                    "felt252",
+                    "let p = BoxTrait::new(Pt { x, y: 22 }); let Pt { x: px, y: _ } = p.unbox(); "
+                    "let v = if c { px } else { alt }; BoxTrait::new(v).unbox()",
+                    lambda c, x, alt: [(True, ok(vint(ite(c, i_(x), i_(alt)))))], tags=("flow",)))
+    E.append(BEntry("flow_box_param_merge", [("b", "Box<felt252>"), ("c", "bool"), ("alt", "felt252")],
+                    "Box<felt252>",
+                    "let v = if c { b.unbox() } else { alt }; BoxTrait::new(v)",
+                    lambda b, c, alt: [(True, ok(("box", vint(ite(c, i_(b[1]), i_(alt))))))],
+                    tags=("flow",)))
+    E.append(BEntry("flow_box_member_param_merge", [("p", "Box<Pt>"), ("c", "bool"),
+                                                    ("alt", "felt252")], "Box<felt252>",
+                    "let Pt { x, y: _ } = p.unbox(); let v = if c { x } else { alt }; "
+                    "BoxTrait::new(v)",
+                    lambda p, c, alt: [(True, ok(("box", vint(ite(c, i_(p[1][1][0]), i_(alt))))))],
+                    tags=("flow",)))
+    E.append(BEntry("flow_match_update", [("o", "Option<u8>"), ("s", "felt252")],
+                    "(felt252, felt252)",
+                    "let mut x = In2 { m: s, n: 1 }; match o { Some(v) => { x.m = v.into(); }, "
+                    "None => { x = In2 { m: 3, n: 4 }; } } (x.m, x.n)",
+                    lambda o, s: [(True, ok(vtuple(vint(i_(o[3][0]) if o[1] == 0 else 3),
+                                                   vint(1 if o[1] == 0 else 4))))], tags=("flow",)))
+    E.append(BEntry("flow_loop_update", [("s", "felt252")], "(felt252, felt252)",
+                    "let mut x = In2 { m: s, n: 0 }; let mut i: u8 = 0; while i != 3 { x.n = x.n + x.m; "
+                    "if i == 1 { x = In2 { m: x.n, n: x.m }; } i += 1; } (x.m, x.n)",
+                    lambda s: [(True, ok(vtuple(vint((2 * i_(s)) % P), vint((3 * i_(s)) % P))))],
+                    tags=("flow",)))
+    return E
+
+
 def bigap_entries():
     """Functions whose branches differ by a very large known ap change (call chain doubling per
     level), so that branch_align has to pad by more than 2^15 / 2^16 cells."""
@@ -467,7 +552,7 @@ def gen_entries():
 EXTRA_FAMILIES = {
     "bounded": bounded_entries, "plumb": plumbing_entries, "gas": gas_entries,
     "hash": hash_entries, "gen": gen_entries, "spec": specialization_entries,
-    "fold": fold_entries, "bigap": bigap_entries,
+    "fold": fold_entries, "bigap": bigap_entries, "flow": flow_entries,
 }
 import gen as _gen
-EXTRA_HEADERS = {"spec": SPEC_HEADER, "gen": _gen.PRELUDE, "bounded": BI_HEADER, "plumb": PLUMB_HEADER, "gas": GAS_HEADER, "hash": HASH_HEADER}
+EXTRA_HEADERS = {"flow": FLOW_HEADER, "spec": SPEC_HEADER, "gen": _gen.PRELUDE, "bounded": BI_HEADER, "plumb": PLUMB_HEADER, "gas": GAS_HEADER, "hash": HASH_HEADER}
